@@ -204,6 +204,10 @@ LexEntry:
                         tree_->relayLineDirective(offset, lineno, fileName->c_str());
                         yylex(&tk);
                     }
+                    else {
+                        // A line number without a file name (6.10.4-3).
+                        tree_->relayLineDirective(offset, lineno, tree_->filePath());
+                    }
                 }
 
                 while (!tk.isAtStartOfLine() && !tk.isKind(SyntaxKind::EndOfFile)) {
